@@ -1154,6 +1154,17 @@ pub fn pick_compaction_scenario(
     Some((cm.level(), nums(cm.get_compaction_level_files()), nums(cm.get_parent_level_files())))
 }
 
+/// The version that results from adding `levels` to an empty version set through `log_and_apply`:
+/// (a size compaction is required, the level recorded for it, number of files at that level).
+pub fn size_compaction_state(options: DbOptions, levels: &[(usize, Vec<VFile>)]) -> (bool, usize, usize) {
+    let (guarded, _tc) = vset_with(&options, levels);
+    let g = guarded.lock();
+    let cur = g.version_set.get_current_version();
+    let node = cur.read();
+    let level = node.element.get_size_compaction_metadata().map_or(0, |m| m.compaction_level);
+    (node.element.requires_size_compaction(), level, node.element.files.get(level).map_or(0, |f| f.len()))
+}
+
 /// Recover a fresh version set from the (closed) database at `options`.
 /// Returns (manifest number CURRENT names, manifest number the version set writes to next, the next new file number,
 /// manifest reused).
